@@ -535,7 +535,13 @@ func (e *Engine) verifyFunction(key string) (res *FuncResult) {
 			f.obligeClause("ensures", fmt.Sprintf("%s#ensures%d@ret%d", short, j+1, i+1), penv, en, r.cond, f.pos(r.pos), true)
 		}
 		if ct.HasMod {
-			f.frameCheck(ct, r, i+1)
+			if ct.Opts["frame"] == "assumed" {
+				// `opt frame=assumed`: the modifies clause is used by callers but not checked here (the
+				// body calls logging / metrics / streaming code without contracts); listed as an assumption
+				c.assumed["frame of "+short+" (its modifies clause) is assumed, not checked: the body calls code without contracts"] = true
+			} else {
+				f.frameCheck(ct, r, i+1)
+			}
 		}
 	}
 	// vacuity: some exit is reachable
